@@ -25,6 +25,7 @@ import itertools
 import numpy as np
 
 from harness import core
+from harness.props import c07_cov as _cov   # part (iv): acquisition values on full covariance matrices
 from harness.props import c07_thompson as _th   # part (iii): Thompson-entropy arithmetic (extension)
 
 TITLE = "acquisition maximisers and model data vs Lean model"
@@ -43,6 +44,9 @@ ASSUMPTIONS = [
     "acquisition functions are row-wise: the value of a row does not depend on the other rows "
     "(true of the five bundled acquisition classes; Thompson values are cached per call and checked "
     "relative to the values actually produced)",
+    "extension (c07_thompson.py): the Thompson values are additionally compared with their definition "
+    "(Model/Thompson.lean at Float, 1e-9) given the Pareto mask, and the mask with the tensor the definition "
+    "builds from the recorded Thompson samples; the Thompson samples themselves (GP posterior draws) are inputs",
 ]
 MAX_JOBS = 14
 D7_KEY = "crash:optimize_acqf_discrete-q-exceeds-choices"
@@ -226,6 +230,7 @@ def gen(ctx):
     yield from gen_tables(ctx, r1)
     yield from _th.gen_thompson(ctx, r3)
     yield from gen_runs(ctx, r2)
+    yield from _cov.gen_cov(ctx)
 
 
 # ------------------------------------------------------------------------------------------------
@@ -1332,6 +1337,8 @@ def run_case(ctx, case):
         run_dec(ctx, case)
     elif kind == "run":
         run_alg(ctx, case)
+    elif kind in ("acq", "covrun"):
+        _cov.run_cov(ctx, case)
     elif kind == "thompson":
         _th.run_thompson(ctx, case)
     else:
